@@ -121,7 +121,7 @@ func (c *Ctx) info(i int) *lineInfo {
 // ubiquitous symbols do not make an assertion relevant on their own: parameters, the entry heap, the entry watermark
 func ubiquitous(sym string) bool {
 	return strings.HasPrefix(sym, "|pc!") || strings.HasPrefix(sym, "|p!") || sym == "|wm0|" || (strings.HasPrefix(sym, "|H!") && strings.HasSuffix(sym, "!e0|")) ||
-		sym == "|arrtype|" || strings.HasPrefix(sym, "|fn!") || strings.HasPrefix(sym, "|iterkey")
+		sym == "|arrtype|" || sym == "|maptype|" || strings.HasPrefix(sym, "|fn!") || strings.HasPrefix(sym, "|iterkey")
 }
 
 // relevantLines: the context lines in the cone of influence of the goal — the definitions it (transitively) mentions
@@ -245,7 +245,48 @@ func Discharge(o *Obligation, dir string, idx int, timeoutS int) {
 			liteFile = ""
 		}
 	}
+	plainFile := ""
+	if o.PlainGoal != "" && o.Expect != "canary" {
+		plainFile = filepath.Join(dir, fmt.Sprintf("o%05d.plain.smt2", idx))
+		full := o.SMT()
+		k := strings.LastIndex(full, "(assert "+o.Goal+")")
+		if k >= 0 {
+			// drop the instances too: this variant is the obligation exactly as it was before skolemisation
+			head := full[:k]
+			for _, x := range o.Extra {
+				head = strings.Replace(head, "(assert "+x+")\n", "", 1)
+			}
+			plain := head + "(assert " + o.PlainGoal + ")\n(check-sat)\n"
+			if err := os.WriteFile(plainFile, []byte(plain), 0o644); err == nil {
+				nruns += 2
+			} else {
+				plainFile = ""
+			}
+		} else {
+			plainFile = ""
+		}
+	}
 	ch := make(chan answer, nruns)
+	if plainFile != "" {
+		for _, s := range []solverSpec{solvers[0], solvers[1]} {
+			s := s
+			go func() {
+				t0 := time.Now()
+				a := s.args(plainFile, timeoutS)
+				cmd := exec.CommandContext(ctx, a[0], a[1:]...)
+				var out bytes.Buffer
+				cmd.Stdout = &out
+				cmd.Stderr = &out
+				_ = cmd.Run()
+				first := strings.TrimSpace(strings.SplitN(out.String(), "\n", 2)[0])
+				v := "unknown"
+				if first == "unsat" {
+					v = "unsat"
+				}
+				ch <- answer{s.name + "/plain", v, out.String(), time.Since(t0).Milliseconds()}
+			}()
+		}
+	}
 	if liteFile != "" {
 		for _, s := range []solverSpec{solvers[0], solvers[2]} {
 			s := s
